@@ -98,6 +98,27 @@ func extract(repo, leanDir string) {
 		}
 	}
 
+	// the ReMap is immutable after construction: no other function assigns numbs / nps (routing has no hidden state)
+	for _, d := range f.AST.Decls {
+		if fd, ok := d.(*ast.FuncDecl); ok && fd.Body != nil && fd.Name.Name != "NewReMap" {
+			ast.Inspect(fd.Body, func(n ast.Node) bool {
+				switch x := n.(type) {
+				case *ast.AssignStmt:
+					for _, l := range x.Lhs {
+						if ls := f.Src(l); strings.HasPrefix(ls, "r.nps") || strings.HasPrefix(ls, "r.numbs") {
+							newShape = note(false, "ReMap mutated in "+fd.Name.Name)
+						}
+					}
+				case *ast.IncDecStmt:
+					if ls := f.Src(x.X); strings.HasPrefix(ls, "r.nps") || strings.HasPrefix(ls, "r.numbs") {
+						newShape = note(false, "ReMap mutated in "+fd.Name.Name)
+					}
+				}
+				return true
+			})
+		}
+	}
+
 	// ---- SearchIndex / SearchUInt64s
 	pred := "unknown"
 	switch f.Body("", "SearchUInt64s") {
